@@ -135,7 +135,12 @@ def STDEVPA(*args):
 
 @dispatcher.register_for('HARMEAN')
 def HARMEAN(*args):
-    return statistics.harmonic_mean(utils.inumbers(args))
+    numbers = list(utils.inumbers(args))
+    if any(number < 0 for number in numbers):
+        # looked for before the mean is taken: harmonic_mean answers 0 at the first zero it meets
+        # and never sees a negative item behind it, so the outcome depended on the order of the items
+        return error.NUM
+    return statistics.harmonic_mean(numbers)
 
 
 @dispatcher.register_for('GEOMEAN')
